@@ -227,7 +227,10 @@ class ChannelChecker:
         live = sum(1 for sub in self.subs.values() if sub['state'] in ('idle', 'busy'))
         registered = len(self.channel._consumer_buffers)
         self.stats['buffer_count_checks'] = self.stats.get('buffer_count_checks', 0) + 1
-        if registered != live:
+        if registered != live and not (
+                getattr(self, 'payload_listener', False) and registered == live + 1):
+            # (a listener that is the payload of a task subscribes in a turn of its own: while
+            # it may be listening one more buffer is in order)
             self.violation('ghost-buffer',
                            '%d buffers registered in the channel but %d consumers are '
                            'subscribed (%s)' % (registered, live, where))
@@ -409,6 +412,25 @@ def build_for(case):
                         await (time + 0.5)
                     await other.close()
             background.append(elsewhere())
+        if case['index'] % 4 == 2:
+            # one more listener, of another style: the channel itself handed to a scope as the
+            # payload of a task (like `scope.do(time + 20)`); it gets one message and is done -
+            # which concerns nobody else
+            async def bystander():
+                await (time + [0, 0.5, 1][case['index'] % 3])
+                checker.payload_listener = True
+                try:
+                    async with usim.Scope() as scope:
+                        await scope.do(channel)
+                except StreamClosed:
+                    pass
+                except usim.Concurrent as err:
+                    if not all(isinstance(child, StreamClosed) for child in err.children):
+                        raise
+                finally:
+                    checker.payload_listener = False
+                checker.stats['payload_listeners'] = checker.stats.get('payload_listeners', 0) + 1
+            background.append(bystander())
         return order, background, checker
     return build
 
